@@ -4,6 +4,7 @@
 mod c02;
 mod c04;
 mod c06;
+mod c07;
 mod c11;
 mod c18;
 mod c19;
@@ -38,6 +39,7 @@ fn main() {
         "C04" | "C20" => c04::run(prop, &tier, replay.as_deref()),
         "C06" => c06::run(&tier, replay.as_deref()),
         "C11" => c11::run(&tier, replay.as_deref()),
+        "C07" => c07::run(&tier, replay.as_deref()),
         "C18" => c18::run(&tier, replay.as_deref()),
         "C19" => c19::run(&tier, replay.as_deref()),
         _ => {
